@@ -119,7 +119,10 @@ def handleUpdate (kv : KV) : Option String := do
   let A ← kv.csc "A"
   let cones ← parseCones kv
   let shape ← parseTriangle (← kv.get? "shape")
-  let sc ← parseScalings kv
+  -- history `…ident`: the last scaling operation was `set_identity_scaling`; the model
+  -- derives the scaling data from the cone list alone (no state can leak in)
+  let hist := (kv.get? "hist").getD "fresh"
+  let sc ← if hist.endsWith "ident" then cones.mapM (identityScaling (α := Float)) else parseScalings kv
   let enable ← kv.nat "reg"
   let const ← kv.float "regconst"
   let prop ← kv.float "regprop"
@@ -133,7 +136,8 @@ def handleUpdate (kv : KV) : Option String := do
 
 /-- `kkt.get_hs`: the packed `Hs` block of one cone from its scaling data -/
 def handleGetHs (kv : KV) : Option String := do
-  let sc ← parseScalings kv
+  let hist := (kv.get? "hist").getD "fresh"
+  let sc ← if hist.endsWith "ident" then (← parseCones kv).mapM (identityScaling (α := Float)) else parseScalings kv
   let r : MErr String := do
     let blocks ← sc.mapM getHs
     pure s!"Hs={fmtFloats (blocks.map Array.toList).flatten.toArray}"
